@@ -201,12 +201,15 @@ type spkSys struct {
 	panicMsg   string
 	lastUser   string
 	burst      int // user events applied since the last delivery
+	// errKeys: pending keys whose last delivery ended with an error from the handler (the real queue retries them with
+	// back-off, possibly forever: a refused configuration stays refused until somebody changes something)
+	errKeys map[string]bool
 	statusEvents int
 	adsEvents    int
 }
 
 func newSpkSys(u *spkUniverse) *spkSys {
-	s := &spkSys{u: u, store: verifenv.NewStore(), otherAlive: true, nodeVar: map[string]int{}}
+	s := &spkSys{u: u, store: verifenv.NewStore(), otherAlive: true, nodeVar: map[string]int{}, errKeys: map[string]bool{}}
 	for n := range u.NodeVars {
 		s.putNode(n, 0)
 	}
@@ -304,6 +307,26 @@ func (s *spkSys) start() {
 }
 
 func (s *spkSys) quiescent() bool { return s.svcQ.Empty() && s.cfgQ.Empty() && s.nodeQ.Empty() }
+
+// settledModuloRetries: nothing is pending except retries of deliveries the handlers refused.
+func (s *spkSys) settledModuloRetries() bool {
+	for _, k := range s.cfgQ.Keys() {
+		if !s.errKeys["cfg/"+k] {
+			return false
+		}
+	}
+	for _, k := range s.nodeQ.Keys() {
+		if !s.errKeys["node/"+k] {
+			return false
+		}
+	}
+	for _, k := range s.svcQ.Keys() {
+		if !s.errKeys["svc/"+k] {
+			return false
+		}
+	}
+	return true
+}
 
 func (s *spkSys) drain() {
 	for {
@@ -470,6 +493,18 @@ func (s *spkSys) memoryDump() string {
 
 var spkBurstMode = true
 
+func (s *spkSys) retryMark() string {
+	var ks []string
+	for k := range s.errKeys {
+		ks = append(ks, k)
+	}
+	sort.Strings(ks)
+	if len(ks) == 0 {
+		return ""
+	}
+	return "retrying " + strings.Join(ks, ",") + "\n"
+}
+
 func (s *spkSys) burstMark() string {
 	if spkBurstMode && !s.u.NoBurst && s.burst == 1 && !s.quiescent() {
 		return "user-event-may-follow\n"
@@ -478,7 +513,7 @@ func (s *spkSys) burstMark() string {
 }
 
 func (s *spkSys) Key() string {
-	return s.burstMark() + s.storeDump() + fmt.Sprintf("Q svc=%v cfg=%v node=%v\n", s.svcQ.Keys(), s.cfgQ.Keys(), s.nodeQ.Keys()) + s.memoryDump() + s.observable() + s.panicMsg
+	return s.burstMark() + s.retryMark() + s.storeDump() + fmt.Sprintf("Q svc=%v cfg=%v node=%v\n", s.svcQ.Keys(), s.cfgQ.Keys(), s.nodeQ.Keys()) + s.memoryDump() + s.observable() + s.panicMsg
 }
 
 func (s *spkSys) Enabled() []verifrt.Event {
@@ -563,6 +598,8 @@ func (s *spkSys) Apply(ev verifrt.Event) {
 	if ev.User {
 		s.lastUser = ev.Kind
 		s.burst++
+		// whatever a user event makes pending is new work, not the retry of a refused one
+		s.errKeys = map[string]bool{}
 	} else {
 		s.burst = 0
 	}
@@ -605,6 +642,9 @@ func (s *spkSys) Apply(ev verifrt.Event) {
 		s.guard(func() {
 			if _, err := s.cr.Reconcile(context.Background(), ctrl.Request{NamespacedName: types.NamespacedName{Namespace: spkNS, Name: "x"}}); err != nil {
 				s.cfgQ.Add("config")
+				s.errKeys["cfg/config"] = true
+			} else {
+				delete(s.errKeys, "cfg/config")
 			}
 		})
 	case "dnode":
@@ -612,6 +652,9 @@ func (s *spkSys) Apply(ev verifrt.Event) {
 		s.guard(func() {
 			if _, err := s.nr.Reconcile(context.Background(), ctrl.Request{NamespacedName: types.NamespacedName{Name: ev.S}}); err != nil {
 				s.nodeQ.Add(ev.S)
+				s.errKeys["node/"+ev.S] = true
+			} else {
+				delete(s.errKeys, "node/"+ev.S)
 			}
 		})
 	case "dsvc":
@@ -624,6 +667,9 @@ func (s *spkSys) Apply(ev verifrt.Event) {
 		s.guard(func() {
 			if _, err := s.sr.Reconcile(context.Background(), req); err != nil {
 				s.svcQ.Add(ev.S)
+				s.errKeys["svc/"+ev.S] = true
+			} else {
+				delete(s.errKeys, "svc/"+ev.S)
 			}
 		})
 	default:
